@@ -2,6 +2,7 @@ import PytypeModel.Proofs.SolverWF
 import PytypeModel.Proofs.SolverBfs
 import PytypeModel.Proofs.SolverExpl
 import PytypeModel.Proofs.SolverSubset
+import PytypeModel.Proofs.SolverIds
 import PytypeModel.Typegraph.Program
 
 /-! # C07 — the typegraph solver decides binding visibility correctly
@@ -42,6 +43,13 @@ theorem solve_goals_reachable_acyclic (g : Graph) (rank : NodeId → Nat) (hwf :
 is no restriction on the graphs pytype can construct. -/
 theorem built_graph_wf (addrs : List Nat) (ops : List Op) (h : wfHistory (PState.init addrs) ops = true) :
     ((PState.init addrs).run ops).g.WF := wf_run addrs ops h
+
+/-- every graph built through the Python entry points (any well-formed history: all thirteen mutating operations,
+queries in between) has only valid binding ids in its source sets, so `g.IdsOK` — a hypothesis of the exactness
+and subset theorems — is no restriction on the graphs pytype can construct either (invariant by induction over the
+history, `Proofs/SolverIds.lean`). -/
+theorem built_graph_ids_ok (addrs : List Nat) (ops : List Op) (h : wfHistory (PState.init addrs) ops = true) :
+    ((PState.init addrs).run ops).g.IdsOK := idsOK_built addrs ops h
 
 /-- **the memoised search computes the memo-free recursion** on well-formed acyclic graphs: `Solve` on a
 fresh solver equals `solveVal`, which is defined from `spec` alone, and `spec` unfolds by `stepVal`
@@ -110,6 +118,27 @@ theorem solve_subset (g : Graph) (rank : NodeId → Nat) (hwf : g.WF) (hac : g.A
     (h : (solve g [] n attrs).1 = true) : (solve g [] n sub).1 = true :=
   solve_subset_acyclic hwf hac hnc hids n attrs sub hb hsub h
 
+/-- **exactness for every graph pytype can build**: after ANY well-formed history of API operations, if the graph
+reached is acyclic and has no node conditions, a fresh solver accepts a combination exactly when a backward path
+explains it.  `WF` and `IdsOK` are discharged by `built_graph_wf` / `built_graph_ids_ok`; what is left are the
+two graph classes the property itself names. -/
+theorem solve_iff_expl_built (addrs : List Nat) (ops : List Op) (h : wfHistory (PState.init addrs) ops = true)
+    (rank : NodeId → Nat) (hac : ((PState.init addrs).run ops).g.AcyclicBy rank)
+    (hnc : ((PState.init addrs).run ops).g.NoConditions) (n : NodeId) (attrs : List BId)
+    (hb : ∀ x ∈ attrs, x < ((PState.init addrs).run ops).g.bindings.length) :
+    (solve ((PState.init addrs).run ops).g [] n attrs).1 = true ↔
+      Expl ((PState.init addrs).run ops).g n (ofList attrs) :=
+  solve_iff_expl _ rank (built_graph_wf addrs ops h) hac hnc (built_graph_ids_ok addrs ops h) n attrs hb
+
+/-- **subset closure for every graph pytype can build** (acyclic, unconditioned) -/
+theorem solve_subset_built (addrs : List Nat) (ops : List Op) (h : wfHistory (PState.init addrs) ops = true)
+    (rank : NodeId → Nat) (hac : ((PState.init addrs).run ops).g.AcyclicBy rank)
+    (hnc : ((PState.init addrs).run ops).g.NoConditions) (n : NodeId) (attrs sub : List BId)
+    (hb : ∀ x ∈ attrs, x < ((PState.init addrs).run ops).g.bindings.length) (hsub : ∀ x ∈ sub, x ∈ attrs)
+    (hs : (solve ((PState.init addrs).run ops).g [] n attrs).1 = true) :
+    (solve ((PState.init addrs).run ops).g [] n sub).1 = true :=
+  solve_subset _ rank (built_graph_wf addrs ops h) hac hnc (built_graph_ids_ok addrs ops h) n attrs sub hb hsub hs
+
 /-- explanations are subset-closed (every well-formed graph with valid ids, cycles and conditions allowed) -/
 theorem expl_subset_closed (g : Graph) (hwf : g.WF) (hids : g.IdsOK) (n : NodeId) (G G' : List BId)
     (h : Expl g n G) (hs : Sorted G') (hb : ∀ x ∈ G', x < g.bindings.length) (hsub : ∀ x ∈ G', x ∈ G) :
@@ -173,7 +202,7 @@ theorem solve_goals_reachable_not_full :
 -- OPEN  solve_complete_cond : g.WF → g.AcyclicBy rank → ExplCond g n G → (solve g [] n G).1 = true
 --       ("with conditions the solver never rejects a combination that has an explaining path"); no theorem —
 --       the clause is evaluated only by the search stage's independent reference (harness/tgref.py).
--- OPEN  IdsOK is preserved by every well-formed history (it is a hypothesis, checkable by `Graph.idsOKB`). -/
+-- (closed in this round: IdsOK is preserved by every well-formed history — `built_graph_ids_ok`.) -/
 
 /-! ### non-vacuity -/
 
